@@ -85,10 +85,15 @@ LatticeAll(ps) == [j \in 1..Len(ps) |-> Lattice(ps[j])]
 Diff(x, c) == [d \in 1..Len(x) |-> KAbs(x[d] * c.den - c.num[d])]
 RNum(mt, x, c) ==
   LET df == Diff(x, c) IN
-  CASE mt = "l2"   -> KSum([d \in 1..Len(x) |-> df[d] * df[d]])
-    [] mt = "l1"   -> KSum(df)
+  CASE mt \in {"l2", "lp2"} -> KSum([d \in 1..Len(x) |-> df[d] * df[d]])
+    [] mt \in {"l1", "lp1"} -> KSum(df)
     [] mt = "linf" -> KMax(df)
-RDen(mt, c) == IF mt = "l2" THEN c.den * c.den ELSE c.den
+    [] mt = "lp3"  -> KSum([d \in 1..Len(x) |-> df[d] * df[d] * df[d]])
+\* (the Minkowski metrics LpDist(p), "lp1" / "lp2" / "lp3", are ordered by sum |d|^p, the p-th power of the
+\* distance linfa compares; l2 is linfa's L2Dist whose reduced distance is the squared distance itself)
+RDen(mt, c) == CASE mt \in {"l2", "lp2"} -> c.den * c.den
+                 [] mt = "lp3" -> c.den * c.den * c.den
+                 [] OTHER -> c.den
 
 \* the same distance in fixed point, 5 decimals, rounded down
 DFx(mt, x, c) == FxDiv(RNum(mt, x, c), RDen(mt, c), 5)
@@ -173,7 +178,7 @@ PLe(p, q) == \/ p[1] < q[1]
 SortedSeqs(P, nn) == {s \in [1..nn -> P] : \A i \in 1..(nn - 1) : PLe(s[i], s[i + 1])}
 
 Init ==
-  /\ metric \in {"l2", "l1", "linf"}
+  /\ metric \in {"l2", "l1", "linf", "lp3"}
   /\ \E P \in {Pts1, Pts2} :
      \E nn \in 1..(IF P = Pts1 THEN MaxN1 ELSE MaxN2) :
      \E kk \in 1..(IF nn < MaxK THEN nn ELSE MaxK) :
